@@ -535,6 +535,11 @@ func callSSA(i *interpreter, caller *frame, callpos token.Pos, fn *ssa.Function,
 			csPop(depth_)
 			return r_
 		}
+		if havocFns[name] {
+			eng.stubs["havoc:"+name] = true
+			csPop(depth_)
+			return havocResult(fn)
+		}
 		if ext := externals[name]; ext != nil {
 			if i.mode&EnableTracing != 0 {
 				fmt.Fprintln(os.Stderr, "\t(external)")
